@@ -1920,6 +1920,10 @@ impl DtlsInner {
                             let _ = self.conn.send(&buf).await;
                         }
                     }
+                    // Publish the final state: `start_dtls` waits for a state change once
+                    // this task is done and would otherwise wait forever.
+                    *self.state.lock() = DtlsState::Closed;
+                    let _ = self.state_tx.send(DtlsState::Closed);
                     return Ok(());
                 }
                 // Handshake timeout — abort if the peer never responds.
